@@ -205,6 +205,13 @@ def bad_streams(rng, n):
         if not faults:
             continue
         f = rng.choice(faults)
+        if rng.random() < 0.35:
+            # two cooperating faults (a region and one nested in it) inside a stream: what follows decides where decoding resumed
+            pairs = list(cases.nested_pair_faults(m, mref, rng, limit=2, ks=(1, 16, 40)))
+            if pairs:
+                f = rng.choice(pairs)
+                f.fault = dict(kind="size", field=f.fault["outer"] + "+" + f.fault["inner"], fkind="nested-pair", change=f.fault["change"])
+                f.sig = ("size", m.t, m.cc, "nested-pair", f.fault["field"], f.fault["change"])
         # every few streams: a command that is abandoned before / at its commandCode (its response has no code to go by)
         cmds = [i for i, x in enumerate(msgs[:-1]) if x.t == "Command"]
         if cmds and rng.random() < 0.3:
@@ -267,10 +274,15 @@ def run_shard(shard, rec):
                 if bref.outcome.kind != "ok":
                     check(base, rec)
                     continue
-                lim = None if thorough else 6
+                lim = None if thorough else 4
                 faults = list(cases.size_faults(base, bref, ks=(1, 2, 5), limit=lim, rng=rng))
                 for fc in faults:
                     check(fc, rec)
+                for fc in cases.nested_pair_faults(base, bref, rng, limit=None if thorough else 2, ks=(1, 5, 64) if thorough else (5, 64)):
+                    check(fc, rec)
+                    # ... and with a trailer longer than any +k: it must come out as surplus (or be decoded), never be swallowed
+                    check(cases.Case(fc.t, fc.d + bytes(range(0x11, 0x71)), fc.cc, fc.enc, origin=fc.origin, fault=dict(fc.fault, trailer=96), sig=fc.sig + ("trailer",)), rec)
+                    rec.count("nested_pair_faults")
                 for fc in cases.value_faults(base, bref, rng, limit=lim if lim is None else 3, second=True):
                     check(fc, rec)
                 cuts = list(cases.cut_faults(base))
